@@ -72,6 +72,15 @@ def core(rng):
                 if kind == "enum":
                     vs.append({"style": "tuple", "fields": [plainV()]})
                 specs.append({"kind": kind, "variants": vs, "derived": d, "entry": "attr" if k % 4 < 2 else "derive", "generic": False})
+    # Debug co-derived with #[debug(ignore)] on hashed fields; the trait list split over two attributes
+    for entry in ("attr", "derive"):
+        for cb in ("first", "last"):
+            f1, f2 = plainV(), plainV()
+            f1["dbg_ignore"] = True
+            specs.append({"kind": "struct", "variants": [{"style": "named", "fields": [plainV(), f1, f2]}], "derived": ["Hash"], "entry": entry,
+                          "generic": False, "codebug": cb, "split": 1})
+            specs.append({"kind": "enum", "variants": [{"style": "tuple", "fields": [dict(f1), plainV()]}, {"style": "unit", "fields": []}],
+                          "derived": ["PartialEq", "Hash"], "entry": entry, "generic": False, "codebug": cb})
     # twelve fields: member names / tuple indices whose text order differs from the declaration order (f10 < f2)
     for style in ("tuple", "named"):
         for kind in ("struct", "enum"):
